@@ -124,6 +124,10 @@ def xsnap(f):
         if r[0] == "err":
             out.append(("L", path, r[1:]))
             return
+        # the same facts through the directory-scan route (scandir / walk with the details namespace): sizes,
+        # types and times must be the ones getinfo states
+        sc = call(lambda: {i.name: (i.name, bool(i.is_dir), i.raw.get("details", {}).get("size"), i.raw.get("details", {}).get("modified"))
+                           for i in f.scandir(path or "/", namespaces=["details"])})
         for name in r[1]:
             if len(out) > 5000:
                 return
@@ -131,6 +135,8 @@ def xsnap(f):
             o = call(lambda: open_read(f, p))
             rb = call(lambda: f.readbytes(p))
             det = call(lambda: details(f, p))
+            if det[0] == "ok" and (sc[0] != "ok" or sc[1].get(name) != det[1]):
+                out.append(("S", p, ("scandir", sc[1].get(name) if sc[0] == "ok" else sc[1:]), ("getinfo", det[1])))
             d = call(lambda: f.isdir(p))
             if d[0] == "err":
                 out.append(("E", p, o, rb, det, d[1:]))
